@@ -72,6 +72,7 @@ var pipeWireExempt = map[string]string{
 
 func (c *Ctx) rulesC18() {
 	c.rule("C18.go", "the handler closures built by pipes.add / pipes.remove do not issue the target mutation from a go statement: a forked mutation per event loses the source's order, so a fast Add/Remove burst can leave the target in the opposite state")
+	c.rule("C18.block", "the handler closures built by pipes.add / pipes.remove do not call the target's mutation synchronously: the call returns only after the target's whole transition, so the source's final handler - and with it the source's transition - is blocked for that long and is canceled when the target is slower than the source's HandlerTimeout. (Together with C18.go this says: neither a bare fork nor a synchronous call satisfies the property; the sites that do either are known findings, any change of them is reported.)")
 	c.rule("C18.kind", "handlers built by add only call Add-type mutations on the target, handlers built by remove only Remove-type; BindAny only Set")
 	c.rule("C18.wire", "in every Bind* helper (and every user of the pipe constructors in the module) an <X>State slot is filled from the Add family and an <X>End slot from the Remove family; the reflect-built structs of Bind/BindMany pair the name suffix with the matching family")
 	c.rule("C18.final", "pipe handlers are final handlers (type HandlerFinal): they cannot veto the source transition")
@@ -121,6 +122,7 @@ func (c *Ctx) rulesC18() {
 					k++
 					_, forked := ins.(*ssa.Go)
 					branch := "flat"
+					loc := ""
 					for _, g := range guardsOf(b) {
 						fvv := stripNotV(g.Cond)
 						if u, ok := fvv.(*ssa.UnOp); ok && u.Op == token.MUL {
@@ -133,12 +135,17 @@ func (c *Ctx) rulesC18() {
 						}
 						if call, ok := stripNotV(g.Cond).(*ssa.Call); ok && call.Call.IsInvoke() && call.Call.Method.Name() == "IsLocal" {
 							if g.Pol == isNegated(g.Cond) {
-								branch = "flat-remote"
+								loc = "-remote"
 							} else {
-								branch = "flat-local"
+								loc = "-local"
 							}
 						}
 					}
+					branch += loc
+					// the other half of the property: the target's transition must not run
+					// inside the source's final handler
+					c.check(forked, "C18.block", fmt.Sprintf("pipes.%s handler: %s target mutation (%s) does not run inside the source's handler", ctor, branch, name), ins.Pos(),
+						"`target."+name+"(...)` is called synchronously from the source's final handler: the source transition lasts as long as the target's, and a target slower than the source's HandlerTimeout cancels the source transition")
 					c.check(!forked, "C18.go", fmt.Sprintf("pipes.%s handler: %s target mutation (%s) is not forked", ctor, branch, name), ins.Pos(),
 						"`go target."+name+"(...)` per event: two quick source events race to the target and may be applied in the opposite order")
 					want := addFamilyCalls
